@@ -1,6 +1,7 @@
 import Ivg.Lemmas.Selectors
 import Ivg.Model.Arc
-import Ivg.Gen.Tie
+import Ivg.Gen.Tie.EncoderFields
+import Ivg.Gen.Tie.RendererFields
 import Ivg.Obligations
 /-!
 # C07 — selector clause: the Encoder and the Renderer report the same CSEL / NSEL
